@@ -42,3 +42,29 @@ impl Future for Sleep {
         Poll::Pending
     }
 }
+
+
+/// tokio::time::timeout on the virtual clock
+pub async fn timeout<F: Future>(duration: Duration, future: F) -> Result<F::Output, Elapsed> {
+    let mut sleep = Box::pin(sleep(duration));
+    let mut future = Box::pin(future);
+    std::future::poll_fn(move |cx| {
+        if let Poll::Ready(v) = future.as_mut().poll(cx) {
+            return Poll::Ready(Ok(v));
+        }
+        if sleep.as_mut().poll(cx).is_ready() {
+            return Poll::Ready(Err(Elapsed(())));
+        }
+        Poll::Pending
+    })
+    .await
+}
+
+#[derive(Debug, PartialEq, Eq)]
+pub struct Elapsed(());
+impl std::fmt::Display for Elapsed {
+    fn fmt(&self, f: &mut std::fmt::Formatter<'_>) -> std::fmt::Result {
+        f.write_str("deadline has elapsed")
+    }
+}
+impl std::error::Error for Elapsed {}
